@@ -737,7 +737,8 @@ class DocGen:
                         src = r.choice(locs)
                         other = r.choice([x for x in ("query", "header", "cookie") if x != src["in"]])
                         if other != "header" or self.on("header_params"):
-                            if not any(p["name"] == src["name"] and p["in"] == other for p in params):
+                            # (header names are case-insensitive: "mode" and "Mode" in headers would be one field)
+                            if not any(p["name"].lower() == src["name"].lower() and p["in"] == other for p in params):
                                 params.append(self.make_param(src["name"], other))
                 # hoist some to components
                 if self.on("component_parameters"):
@@ -810,7 +811,8 @@ class DocGen:
                         locs = [x for x in locs if x != src["in"]]
                         if locs:
                             other = r.choice(locs)
-                            if not any(p_.get("name") == src["name"] and p_.get("in") == other for p_ in item_level):
+                            op_level = [q for m2 in methods for q in item[m2].get("parameters", []) if isinstance(q, dict)]
+                            if not any(str(p_.get("name", "")).lower() == src["name"].lower() and p_.get("in") == other for p_ in item_level + op_level):
                                 item_level.append(self.make_param(src["name"], other))
                 if r.random() < 0.4:
                     # a path-item-level query parameter shared by all operations, shadowed in one
